@@ -137,6 +137,11 @@ def gen_template(rng):
     elif t < 0.8:     # pop of the host the iterator stands on, then push
         words = [rng_word, single]
         ops = ["new", "push " + ",".join(words), "it_new"] + ["it_next 0"] * (k + 2) + ["pop", "push " + rng.choice(["z", "z[1-2]", single + "1"]), "it_next 0", "it_next 0"]
+    elif t < 0.9:     # delete by position / name in the record BEFORE the one the iterator stands in
+        m = rng.randrange(0, k + 1)
+        steps = k + 1 + rng.randrange(1, 3)
+        dele = rng.choice(["delete_nth %d" % m, "delete_host %s%d" % (pre, lo + m)])
+        ops = ["new", "push %s,w[1-3]" % rng_word, "it_new"] + ["it_next 0"] * steps + [dele] + ["it_next 0"] * 4
     else:             # pop / shift while the iterator is somewhere in the middle
         ops = ["new", "push " + rng_word + "," + single + ",w[1-2]", "it_new"] + ["it_next 0"] * rng.randrange(1, k + 3) + \
               [rng.choice(["pop", "shift"])] * rng.choice([1, 2]) + ["it_next 0"] * 4
@@ -145,7 +150,7 @@ def gen_template(rng):
 
 def gen_history(rng, nops, profile):
     """profile: which risky combinations the history may contain (keeps findings attributable)"""
-    if profile in ("own", "pop") and rng.random() < 0.5:
+    if profile in ("own", "pop", "delete") and rng.random() < 0.5:
         return gen_template(rng)
     g = Guide()
     ops = ["new"]
@@ -502,7 +507,7 @@ def nontrivial(s):
 
 
 def judge(ctx, hl, s, ans, crash, m, sp, dist, shrinking=False):
-    """returns a tag describing the first problem (used by the shrinker) or None"""
+    """returns the set of tags describing the problems seen (used by the shrinker)"""
     n = len(ans)
     states = [split_state(x)[1] for x in sp]
     sp = [split_state(x)[0] for x in sp]
@@ -526,17 +531,18 @@ def judge(ctx, hl, s, ans, crash, m, sp, dist, shrinking=False):
         sig = "crash:nth:name>78" if n < len(s) and s[n].startswith("nth") else \
             "crash:%s:%s" % (s[n].split()[0] if n < len(s) else "end",
                                events(s, states, n, int(s[n].split()[1]) if n < len(s) and s[n].startswith("it_") and len(s[n].split()) > 1 else -1, sp))
+        if tag:
+            sig += ":impl!=model"
         if not shrinking:
             ctx.offender(sig, "hostlist.c aborts (sanitizer / assertion / signal) at op %d `%s`: %s" %
                          (n, s[n] if n < len(s) else "?", crash_line(crash)),
                          {"ops": small(ctx, hl, s, "crash:" + sig), "impl": [dec_ans(a) for a in ans][-6:]})
-        return tag or "crash:" + sig
-    if k is not None:
-        if not shrinking:
-            ctx.disagreement("hl edit model vs hostlist.c", "op %d `%s`: impl `%s` model `%s`" %
-                             (k, s[k], dec_ans(ans[k])[:200], dec_ans(m[k])[:200]), {"ops": small(ctx, hl, s, "model-vs-impl")})
-        return "model-vs-impl"
-    # --- oracle: implementation vs the plain list
+        return {t for t in (tag, "crash:" + sig) if t}
+    if k is not None and not shrinking:
+        ctx.disagreement("hl edit model vs hostlist.c", "op %d `%s`: impl `%s` model `%s`" %
+                         (k, s[k], dec_ans(ans[k])[:200], dec_ans(m[k])[:200]), {"ops": small(ctx, hl, s, "model-vs-impl")})
+    # --- oracle: implementation vs the plain list (a recorded finding describes MODELLED behaviour: where the
+    # implementation has already left the model, a difference is never excused by a finding)
     for i, o in enumerate(s):
         if o in ("dump", "nranges") or i >= len(sp):
             continue
@@ -544,13 +550,15 @@ def judge(ctx, hl, s, ans, crash, m, sp, dist, shrinking=False):
             if sp[i] in ("bad-arg", "unsupported", "no-annotation"):
                 continue
             sig = classify(s, ans, sp, states, i)
+            if k is not None and k <= i:
+                sig += ":impl!=model"
             if not shrinking:
                 ctx.offender(sig, "op %d `%s`: hostlist.c answers `%s`, the plain list `%s`" %
                              (i, o, dec_ans(ans[i])[:160], dec_ans(sp[i])[:160]),
                              {"ops": small(ctx, hl, s, "spec:" + sig), "first_diff": i,
                               "impl": dec_ans(ans[i])[:300], "spec": dec_ans(sp[i])[:300]})
-            return "spec:" + sig
-    return None
+            return {"spec:" + sig} | ({"model-vs-impl"} if k is not None else set())
+    return {"model-vs-impl"} if k is not None else set()
 
 
 def small(ctx, hl, s, tag):
@@ -569,7 +577,7 @@ def small(ctx, hl, s, tag):
         # a shrunk history must stay inside the contract of hostlist_remove
         if not remove_contract_ok(t):
             return False
-        return judge(ctx, hl, t, ans, crash, m, sp, {"crash": 0, "ub-predicted": 0}, shrinking=True) == tag
+        return tag in judge(ctx, hl, t, ans, crash, m, sp, {"crash": 0, "ub-predicted": 0}, shrinking=True)
     try:
         return ddmin(s, fails, keep_head=1, max_tests=120)
     except Exception:
